@@ -19,7 +19,7 @@ from vmon.refmodels import shapes as SH
 PROPERTY = "C08"
 LEVEL = "exploration"
 RULE = ("random cases: distributed_shampoo {x64 on, off} x layouts with 1 or 2 blocked axes and ragged last blocks (e.g. (11,4)/4, (8,6)/4, "
-        "(10,7)/4, (6,3,5)/3) x per-block gradient scales 10^U(-6,6) x graft {NONE, SGD, RMSPROP} x Newton/eigh x beta2 x 5-step histories; "
+        "(10,7)/4, (6,3,5)/3) x per-block gradient scales 10^U(-6,6) x graft {NONE, SGD, RMSPROP} x Newton/eigh x beta2 x {jit, pmap int16-quantised, sharded 2-device mesh} x 5-step histories; "
         "companions: 1-2 extra leaves of rank 1-3 with scale 1e-8..1e8 and larger statistics; Tearfree Shampoo: layouts with dims multiple of the "
         "block (1 or 2 blocked axes) x scales 10^U(-3,3).  evaluations = (block, step) comparisons; non-trivial = case with >= 2 blocks of scale "
         "ratio >= 1e3 or a companion; distinct by hash of the case")
@@ -38,9 +38,9 @@ def shards(tier, seed):
   n = 7 if tier == "quick" else 100
   out = []
   for i in range(7):
-    out.append({"name": "ds64_%d" % i, "env": {"x64": True}, "kind": "ds", "n": n, "budget_s": 1200 if tier == "quick" else 6500})
+    out.append({"name": "ds64_%d" % i, "env": {"x64": True, "devices": 2}, "kind": "ds", "n": n, "budget_s": 1200 if tier == "quick" else 6500})
   for i in range(4):
-    out.append({"name": "ds32_%d" % i, "env": {"x64": False}, "kind": "ds", "n": n, "budget_s": 1200 if tier == "quick" else 6500})
+    out.append({"name": "ds32_%d" % i, "env": {"x64": False, "devices": 2}, "kind": "ds", "n": n, "budget_s": 1200 if tier == "quick" else 6500})
   for i in range(3):
     out.append({"name": "tf64_%d" % i, "env": {"x64": True}, "kind": "tf", "n": n * 2, "budget_s": 1200 if tier == "quick" else 6500})
   for i in range(2):
@@ -55,7 +55,9 @@ def gen_case(rng, kind):
             # relative ridge well above the float32 noise of the statistics (n*2^-24*lambda_max): with an absolute or a
             # tiny ridge the root of a rank-deficient block is decided by rounding noise in ANY arrangement (DESIGN 2.4 rule 4)
             "beta2": float(rng.choice([1.0, 0.9, 0.999])), "eps": float(rng.choice([1e-4, 1e-3])), "rel": True,
-            "companion": bool(rng.integers(0, 2)), "T": 5, "hseed": int(rng.integers(0, 2 ** 31))}
+            "companion": bool(rng.integers(0, 2)), "T": 5, "hseed": int(rng.integers(0, 2 ** 31)),
+            # replicated, pmap with int16-quantised statistics (x64 off only: its roots are float32), sharded (stacked global statistics)
+            "mode": str(rng.choice(["jit", "jit", "sharded", "pmapq"]))}
   (shape, block) = TF_LAYOUTS[int(rng.integers(0, len(TF_LAYOUTS)))]
   return {"kind": "tf", "shape": list(shape), "block": block, "decay": float(rng.choice([1.0, 0.9])),
           "companion": bool(rng.integers(0, 2)), "T": 5, "hseed": int(rng.integers(0, 2 ** 31))}
@@ -72,10 +74,10 @@ def make_hist(rng, shape, slices, T, lo, hi):
   return hist, scales
 
 
-def run_ds(cfg, trees_hist, T):
+def run_ds(cfg, trees_hist, T, mode="jit"):
   """trees_hist: dict leaf -> list of T arrays.  Returns list of update dicts."""
   params = {k: np.zeros(v[0].shape, np.float32) for k, v in trees_hist.items()}
-  r = H.Runner(cfg, params, "jit", 1)
+  r = H.Runner(cfg, params, mode, 2 if mode == "sharded" else 1)
   outs = []
   for t in range(T):
     u, _ = r.step({k: v[t] for k, v in trees_hist.items()})
@@ -111,18 +113,22 @@ def check_ds(c, rec):
              merge_small_dims_block_size=1, best_effort_shape_interpretation=False, skip_preconditioning_rank_lt=0,
              eigh=c["eigh"], beta2=c["beta2"], matrix_epsilon=c["eps"], relative_matrix_epsilon=c["rel"], diagonal_epsilon=1e-30)
   tol = 2e-5
+  mode = c.get("mode", "jit")
+  if mode == "pmapq":
+    tol = 2e-3      # int16 quantisation of statistics and preconditioners: half a bucket ~ 1.5e-5 per entry, amplified by the root
+  rec.count("cases_mode_" + mode)
   try:
-    full = run_ds(cfg, {"w": hist}, c["T"])
-    sep = run_ds(cfg, {"b%02d" % i: [h[sl] for h in hist] for i, sl in enumerate(slices)}, c["T"])
+    full = run_ds(cfg, {"w": hist}, c["T"], mode)
+    sep = run_ds(cfg, {"b%02d" % i: [h[sl] for h in hist] for i, sl in enumerate(slices)}, c["T"], mode)
     comp = None
     if c["companion"]:
       zshape = [(7, 9, 2), (13,), (16, 3), (5, 5), (8, 8), (block, block)][int(rng.integers(0, 6))]
       zs = 10 ** rng.uniform(-8, 8)
-      comp = run_ds(cfg, {"w": hist, "z": [(rng.standard_normal(zshape) * zs).astype(np.float32) for _ in range(c["T"])]}, c["T"])
+      comp = run_ds(cfg, {"w": hist, "z": [(rng.standard_normal(zshape) * zs).astype(np.float32) for _ in range(c["T"])]}, c["T"], mode)
     # one block optimised completely alone (its own optimizer instance: no other statistic to be padded to)
     sizes = [min(tuple(sl_.stop - sl_.start for sl_ in sl)) for sl in slices]
     jalone = int(np.argmin(sizes))
-    alone = run_ds(cfg, {"b": [h[slices[jalone]] for h in hist]}, c["T"])
+    alone = run_ds(cfg, {"b": [h[slices[jalone]] for h in hist]}, c["T"], mode)
   except Exception as e:  # pylint: disable=broad-except
     kind, where = H.classify_exception(e)
     if kind == "reject":
